@@ -115,6 +115,18 @@ def property_checks(inp):
     phimax = k / (2 * abs(f)) * 2 * x2max ** 2
     A(("lensAgainst = oneStepFresnel o lens phase", oc.relerr(op.lensAgainst(U, wvl, d, f),
         op.oneStepFresnel(U * numpy.exp(-1j * k / (2 * f) * (X ** 2 + Y ** 2)), wvl, d, f)), 1e-9 + 1e-14 * phimax))
+    # distances / spacings held as NumPy scalars or 0-d arrays are the same numbers (unit magnification included)
+    with numpy.errstate(all="ignore"):
+        ts_py = op.twoStepFresnel(U, wvl, d, d, z)
+        worst_np = 0.0
+        for conv in (numpy.float64, lambda v_: numpy.array(v_)):
+            ts_np = op.twoStepFresnel(U, conv(wvl), conv(d), conv(d), conv(z))
+            as_np = op.angularSpectrum(U, conv(wvl), conv(d), conv(d), conv(z))
+            worst_np = max(worst_np, oc.relerr(ts_np, ts_py) if numpy.all(numpy.isfinite(ts_np)) else float("inf"), oc.relerr(as_np, full))
+    A(("NumPy-scalar / 0-d array arguments give the result of the equal Python floats (unit magnification)/%s" % par, worst_np, 1e-12))
+    # a zero-length step hands back a field of its own: working in place on it does not touch the input
+    z0 = op.angularSpectrum(U, wvl, d, d, 0)
+    A(("the result of a zero-length step does not share memory with the input/%s" % par, 1.0 if numpy.shares_memory(z0, U) else 0.0, 0.0))
     # the field passed in is still that field afterwards (every law above is a statement about it), whatever the call order
     A(("the propagators leave the input field untouched/%s" % par, 0.0 if numpy.array_equal(U, Ukeep) else 1.0, 0.0))
     W = Ukeep.copy()
